@@ -3,7 +3,7 @@
    in terms of the block numbering bidx of MmrNodes.v; the authentication path of a leaf after an append;
    update_from_append and batch_update_from_append are exact. *)
 From Coq Require Import ZArith List Bool Lia.
-From TF Require Import Word MmrIdxLocal Mmr MmrSpec MmrBits MmrNodes MmrProofs MmrPaths MmrUpdates MmrBatch.
+From TF Require Import Word MmrIdxLocal Mmr MmrSpec MmrBits MmrNodes MmrProofs MmrPaths MmrUpdates MmrBatch MmrHistory.
 Import ListNotations.
 Open Scope Z_scope.
 Ltac Zify.zify_post_hook ::= Z.div_mod_to_equations.
@@ -241,6 +241,11 @@ Fixpoint pbl (k : nat) (n : Z) : list (nat * Z) :=
   | S k' => if Z.odd (n / 2 ^ Z.of_nat k') then (k', n / 2 ^ Z.of_nat k' - 1) :: pbl k' n else pbl k' n
   end.
 
+(* all 64 bit positions; kept behind a definition: `pbl 64 n` must never be unfolded by cbn / conversion *)
+Definition pbl64 (n : Z) : list (nat * Z) := pbl 64 n.
+Lemma pbl64_eq n : pbl64 n = pbl 64 n.
+Proof. reflexivity. Qed.
+
 Lemma peaks_at_blocks (k : nat) : forall full o,
   0 <= o -> o mod 2 ^ Z.of_nat k = 0 -> o <= zlength full -> zlength full - o < 2 ^ Z.of_nat k ->
   peaks_at D H dflt k (skipn (Z.to_nat o) full) = map (fun p => br full (snd p) (fst p)) (pbl k (zlength full)).
@@ -271,9 +276,9 @@ Proof.
 Qed.
 
 Theorem peaks_spec_blocks ls : zlength ls < 2 ^ 64 ->
-  peaks_spec D H dflt ls = map (fun p => br ls (snd p) (fst p)) (pbl 64 (zlength ls)).
+  peaks_spec D H dflt ls = map (fun p => br ls (snd p) (fst p)) (pbl64 (zlength ls)).
 Proof.
-  intros Hl. rewrite peaks_spec_eq.
+  intros Hl. rewrite pbl64_eq. rewrite peaks_spec_eq.
   pose proof (peaks_at_blocks 64 ls 0 ltac:(lia) eq_refl (zlength_nonneg ls)) as Hp.
   cbn [Z.to_nat skipn] in Hp. apply Hp. lia.
 Qed.
@@ -576,9 +581,9 @@ Lemma lin_lt_pow2 (K : nat) : Z.of_nat K + 1 <= 2 ^ Z.of_nat K.
 Proof. induction K as [|K IH]; [cbn; lia|]. rewrite p2_S. lia. Qed.
 
 Theorem peak_heights_and_indices_spec n : 0 <= n < 2 ^ 63 ->
-  peak_heights_and_indices n = Some (map pk_entry (pbl 64 n)).
+  peak_heights_and_indices n = Some (map pk_entry (pbl64 n)).
 Proof.
-  intros Hn. unfold peak_heights_and_indices.
+  intros Hn. rewrite pbl64_eq. unfold peak_heights_and_indices.
   destruct (Z.eqb_spec n 0) as [->|Hn0].
   { reflexivity. }
   set (K := Z.to_nat (Z.log2 n)).
@@ -729,6 +734,8 @@ Proof.
   unfold pk_key in Ek. cbn [fst snd] in Ek. destruct (okb_inj _ _ _ _ Hok Hok2 Ek). lia.
 Qed.
 
+Opaque pbl64.
+
 (* ---------------------------------------------------------------- update_from_append / batch_update_from_append *)
 Section Ufa.
 Variable D : Type.
@@ -796,7 +803,7 @@ Qed.
 Lemma old_peaks_rev : exists rest, rev (peaks_spec D H dflt ls) = pks 0 t ++ rest.
 Proof.
   rewrite (peaks_spec_blocks D H dflt ls) by (change (2 ^ 63) with 9223372036854775808 in Hn; change (2 ^ 64) with 18446744073709551616; lia).
-  destruct (pbl_split n t 64 ltac:(lia)) as (hi & E & _). rewrite E.
+  rewrite pbl64_eq. destruct (pbl_split n t 64 ltac:(lia)) as (hi & E & _). rewrite E.
   rewrite (pbl_low n t q Ht t) by lia.
   fold brf. rewrite map_app, rev_app_distr. rewrite rev_low. eexists. reflexivity.
 Qed.
@@ -831,7 +838,7 @@ Proof.
   - apply IH. lia.
 Qed.
 
-Definition known0 : dmap D := insert_zip D [] (map snd (map pk_entry (pbl 64 n))) (peaks_spec D H dflt ls).
+Definition known0 : dmap D := insert_zip D [] (map snd (map pk_entry (pbl64 n))) (peaks_spec D H dflt ls).
 
 Lemma known0_peak (s : nat) : (s < t)%nat -> dget D known0 (bidx (n / 2 ^ Z.of_nat s - 1) (Z.of_nat s)) = Some (oldpk s).
 Proof.
@@ -841,8 +848,8 @@ Proof.
   change (bidx (n / 2 ^ Z.of_nat s - 1) (Z.of_nat s)) with (pk_key (s, n / 2 ^ Z.of_nat s - 1)).
   change (oldpk s) with ((fun p => br ls (snd p) (fst p)) (s, n / 2 ^ Z.of_nat s - 1)).
   apply dget_insert_zip.
-  - apply pbl_keys_nodup. lia.
-  - apply in_pbl. split; [lia|]. split; [|reflexivity].
+  - rewrite pbl64_eq. apply pbl_keys_nodup. lia.
+  - rewrite pbl64_eq. apply in_pbl. split; [lia|]. split; [|reflexivity].
     rewrite (tones_odd n t q Ht s Hs). rewrite Z.odd_add, Z.odd_mul. reflexivity.
 Qed.
 
@@ -1082,7 +1089,8 @@ Proof.
     destruct (Z.ltb_spec (n + 1) 18446744073709551616); [|lia]. cbn [obind].
     unfold num_nodes, two63. destruct (Z.ltb_spec (n + 1) 9223372036854775808); [|lia]. cbn [obind].
     fold (nn (n + 1)). rewrite (missing_spec i Hi h Hh Hlt). cbn [obind].
-    rewrite (peak_heights_and_indices_spec n Hn0). cbn [obind]. fold known0.
+    rewrite (peak_heights_and_indices_spec n Hn0). cbn [obind].
+    change (insert_zip D [] (map snd (map pk_entry (pbl64 n))) (peaks_spec D H dflt ls)) with known0.
     destruct old_peaks_rev as (rest & Er). rewrite Er.
     rewrite (ufa_loop_top _ h rest Hlt (missing_mem i Hi h Hh Hlt)).
     rewrite (lookup_missing i Hi h Hh Hlt _ (ins_acc_ok (S h) h ltac:(lia) ltac:(lia))). cbn [obind].
@@ -1090,4 +1098,171 @@ Proof.
   - rewrite (path_unchanged i Hi h Hh ltac:(lia)). reflexivity.
 Qed.
 
+
+(* ---- batch_update_from_append *)
+Lemma bufa_loop_cons kn a c stop ni added pk rp :
+  bufa_loop D H kn a c stop (ni :: added) (pk :: rp) =
+  if c =? stop then dins D kn ni a else bufa_loop D H (dins D kn ni a) (H pk a) (c + 1) stop added rp.
+Proof. reflexivity. Qed.
+
+Lemma bufa_loop_spec : (1 <= t)%nat ->
+  forall m s kn rest, (s + m = t - 1)%nat ->
+  bufa_loop D H kn (acc s) (Z.of_nat s) (Z.of_nat t - 1)
+            (bidx (n / 2 ^ Z.of_nat s) (Z.of_nat s) :: dp_nodes_from n s (t - s)) (pks s (t - s) ++ rest) =
+  ins_acc kn s (S m).
+Proof.
+  intros Ht1. induction m as [|m IH]; intros s kn rest Hs.
+  - replace (t - s)%nat with (S (t - S s)) by lia. cbn [dp_nodes_from pks app ins_acc]. rewrite bufa_loop_cons.
+    destruct (Z.eqb_spec (Z.of_nat s) (Z.of_nat t - 1)); [reflexivity|lia].
+  - replace (t - s)%nat with (S (t - S s)) by lia. cbn [dp_nodes_from pks app]. rewrite bufa_loop_cons.
+    destruct (Z.eqb_spec (Z.of_nat s) (Z.of_nat t - 1)); [lia|].
+    rewrite <- acc_S by lia. replace (Z.of_nat s + 1) with (Z.of_nat (S s)) by lia. rewrite IH by lia. reflexivity.
+Qed.
+
+Lemma bufa_loop_top rest : (1 <= t)%nat ->
+  bufa_loop D H known0 d 0 (Z.of_nat t - 1) (bidx n 0 :: dp_nodes_from n 0 t) (pks 0 t ++ rest) = ins_acc known0 0 t.
+Proof.
+  intros Ht1. pose proof (bufa_loop_spec Ht1 (t - 1) 0 known0 rest ltac:(lia)) as Hu.
+  rewrite acc_0 in Hu. change (2 ^ Z.of_nat 0) with 1 in Hu. rewrite Z.div_1_r in Hu. rewrite Nat.sub_0_r in Hu.
+  change (Z.of_nat 0) with 0 in Hu. replace (S (t - 1)) with t in Hu by lia. exact Hu.
+Qed.
+
+Lemma dp_nodes_from_length x : forall m s, length (dp_nodes_from x s m) = m.
+Proof. induction m; intros; cbn [dp_nodes_from length]; [reflexivity|]. rewrite IHm. reflexivity. Qed.
+
+Notation md_spec := (md_spec D H dflt).
+
+(* one tracked proof of the batch loop *)
+Lemma bufa_leaf kn i (h : nat) : (forall h', (h' < t)%nat -> kn_ok kn h') -> 0 <= i < n -> hgt n i = h ->
+  (let? (old_peak_index, old_peak_height) := get_peak_index_and_height D (path ls i) i in
+   let? sh := shl1 (old_peak_height + 1) in
+   let? peak_parent_index := add64 old_peak_index sh in
+   Some (zmem peak_parent_index (bidx n 0 :: dp_nodes_from n 0 t), old_peak_index)) =
+  Some ((h <? t)%nat, bidx (i / 2 ^ Z.of_nat h) (Z.of_nat h)) /\
+  ((h <? t)%nat = true ->
+   exists ext, get_authentication_path_node_indices (bidx (i / 2 ^ Z.of_nat h) (Z.of_nat h)) (bidx (n / 2 ^ Z.of_nat t) (Z.of_nat t)) (nn (n + 1)) =
+               Some (Some (ap_nodes_from i h (t - h))) /\
+               lookup_all D kn (ap_nodes_from i h (t - h)) = Some ext /\ path L' i = path ls i ++ ext /\ path L' i <> path ls i) /\
+  ((h <? t)%nat = false -> path L' i = path ls i).
+Proof.
+  intros Hkn Hi Hh.
+  destruct (ufa_leaf i h Hi Hh) as (_ & L1 & L2 & Hne).
+  split; [|split].
+  - rewrite (peak_and_height i Hi h Hh). cbn [obind].
+    rewrite (peak_shl i Hi h Hh). cbn [obind]. rewrite (peak_parent i Hi h Hh). cbn [obind].
+    rewrite (parent_added i Hi h Hh). reflexivity.
+  - intros Hlt. apply Nat.ltb_lt in Hlt. eexists. split; [exact (missing_spec i Hi h Hh Hlt)|].
+    split; [exact (lookup_missing i Hi h Hh Hlt kn (Hkn h Hlt))|]. split; [exact (path_extended i Hi h Hh Hlt)|].
+    intros E. rewrite E in L2. rewrite L1 in L2. destruct (Nat.ltb_spec h t); lia.
+  - intros Hge. apply Nat.ltb_ge in Hge. apply (path_unchanged i Hi h Hh). lia.
+Qed.
+
+Lemma bufa_proofs_spec kn : (forall h', (h' < t)%nat -> kn_ok kn h') ->
+  forall idxs p, Forall (fun i => 0 <= i < n) idxs ->
+  exists md, bufa_proofs D p (map (path ls) idxs) idxs (bidx n 0 :: dp_nodes_from n 0 t) kn
+                         (bidx (n / 2 ^ Z.of_nat t) (Z.of_nat t)) (nn (n + 1)) =
+             Some (map (path L') idxs, md) /\ md_spec ls L' p idxs md.
+Proof.
+  intros Hkn. induction idxs as [|i idxs IH]; intros p Hall.
+  - exists []. split; reflexivity.
+  - pose proof (Forall_inv Hall) as Hi. cbv beta in Hi.
+    destruct (IH (p + 1) (Forall_inv_tail Hall)) as (md & Hr & Hmd).
+    destruct (bufa_leaf kn i (hgt n i) Hkn Hi eq_refl) as (E1 & E2 & E3).
+    revert E1 E2 E3. generalize (hgt n i) as h. intros h E1 E2 E3.
+    cbn [map bufa_proofs].
+    destruct (get_peak_index_and_height D (path ls i) i) as [[opi oph]|]; [|discriminate E1]. cbn [obind] in *.
+    destruct (shl1 (oph + 1)) as [sh|]; [|discriminate E1]. cbn [obind] in *.
+    destruct (add64 opi sh) as [ppi|]; [|discriminate E1]. cbn [obind] in *.
+    pose proof (f_equal (fun o => match o with Some (z, _) => z | None => false end) E1) as Ez.
+    pose proof (f_equal (fun o => match o with Some (_, z) => z | None => 0 end) E1) as Eo.
+    cbv beta iota in Ez, Eo. rewrite Ez. subst opi. clear E1.
+    destruct (h <? t)%nat eqn:Elt; cbn [negb].
+    + destruct (E2 eq_refl) as (ext & M1 & M2 & M3 & M4). rewrite M1. cbn [obind]. rewrite M2. cbn [obind].
+      rewrite Hr. cbn [obind]. exists (p :: md). split; [rewrite M3; reflexivity|].
+      cbn [MmrUpdates.md_spec]. right. split; [exact M4|]. exists md. split; [reflexivity|exact Hmd].
+    + rewrite Hr. cbn [obind]. exists md. split; [rewrite (E3 eq_refl); reflexivity|].
+      cbn [MmrUpdates.md_spec]. left. split; [exact (E3 eq_refl)|exact Hmd].
+Qed.
+
+Lemma all_unchanged : t = 0%nat -> forall idxs p, Forall (fun i => 0 <= i < n) idxs ->
+  map (path L') idxs = map (path ls) idxs /\ md_spec ls L' p idxs [].
+Proof.
+  intros Ht0. induction idxs as [|i idxs IH]; intros p Hall; [split; reflexivity|].
+  pose proof (Forall_inv Hall) as Hi. cbv beta in Hi. destruct (IH (p + 1) (Forall_inv_tail Hall)) as [IH1 IH2].
+  destruct (ufa_leaf i (hgt n i) Hi eq_refl) as (_ & _ & _ & Hne).
+  pose proof (path_unchanged i Hi (hgt n i) eq_refl ltac:(lia)) as Hp.
+  cbn [map]. split; [rewrite Hp, IH1; reflexivity|].
+  cbn [MmrUpdates.md_spec]. left. split; [exact Hp|exact IH2].
+Qed.
+
+Theorem bufa_section_spec idxs : Forall (fun i => 0 <= i < n) idxs ->
+  exists md, batch_update_from_append D H (map (path ls) idxs) idxs n d (peaks_spec D H dflt ls) =
+             Some (map (path L') idxs, md) /\ md_spec ls L' 0 idxs md.
+Proof.
+  intros Hall. unfold batch_update_from_append.
+  rewrite map_length. rewrite Nat.eqb_refl. cbn [negb].
+  replace (forallb (fun x => x <? n) idxs) with true.
+  2:{ symmetry. apply forallb_forall. intros x Hx. rewrite Forall_forall in Hall. apply Z.ltb_lt. apply (Hall x Hx). }
+  cbn [negb]. rewrite (added_spec n t q Ht Hn). cbn [obind].
+  assert (Ezl : zlen (bidx n 0 :: dp_nodes_from n 0 t) = Z.of_nat t + 1).
+  { unfold zlen. cbn [length]. rewrite dp_nodes_from_length. lia. }
+  rewrite Ezl.
+  destruct (Z.eqb_spec (Z.of_nat t + 1) 1) as [E0|Hne].
+  - destruct (all_unchanged ltac:(lia) idxs 0 Hall) as [A1 A2]. exists []. split; [rewrite A1; reflexivity|exact A2].
+  - rewrite (peak_heights_and_indices_spec n Hn0). cbn [obind].
+    change (insert_zip D [] (map snd (map pk_entry (pbl64 n))) (peaks_spec D H dflt ls)) with known0.
+    destruct old_peaks_rev as (rest & Er). rewrite Er.
+    replace (Z.of_nat t + 1 - 2) with (Z.of_nat t - 1) by lia.
+    rewrite (bufa_loop_top rest ltac:(lia)).
+    rewrite (last_direct n t). cbn [obind].
+    unfold add64, two64. change (2 ^ 63) with 9223372036854775808 in Hn.
+    destruct (Z.ltb_spec (n + 1) 18446744073709551616); [|lia]. cbn [obind].
+    unfold num_nodes, two63. destruct (Z.ltb_spec (n + 1) 9223372036854775808); [|lia]. cbn [obind].
+    fold (nn (n + 1)).
+    apply bufa_proofs_spec; [|exact Hall].
+    intros h' Hh'. apply ins_acc_ok; lia.
+Qed.
+
 End Ufa.
+
+(* ---------------------------------------------------------------- the general theorems *)
+Theorem update_from_append_spec (D : Type) (H : D -> D -> D) (dflt : D) (ls : list D) (d : D) (i : Z) :
+  0 <= i < zlength ls -> zlength ls + 1 < 2 ^ 63 ->
+  update_from_append D H (path D H dflt ls i) i (zlength ls) d (peaks_spec D H dflt ls) =
+  Some (path D H dflt (ls ++ [d]) i,
+        negb (zlength (path D H dflt (ls ++ [d]) i) =? zlength (path D H dflt ls i))).
+Proof.
+  intros Hi Hn. destruct (tones_exists (zlength ls) (zlength_nonneg ls)) as (q & Ht & _).
+  destruct (ufa_leaf D H dflt ls d _ q Ht Hn i (hgt (zlength ls) i) Hi eq_refl) as (E & L1 & L2 & Hne).
+  revert E L1 L2 Hne. generalize (hgt (zlength ls) i) as h. generalize (Z.to_nat (tz (zlength ls + 1))) as t.
+  intros t h E L1 L2 Hne. rewrite E, L1, L2. f_equal. f_equal.
+  destruct (Nat.ltb_spec h t).
+  - destruct (Z.eqb_spec (Z.of_nat t) (Z.of_nat h)); [lia|reflexivity].
+  - rewrite Z.eqb_refl. reflexivity.
+Qed.
+
+Theorem batch_update_from_append_spec (D : Type) (H : D -> D -> D) (dflt : D) (ls : list D) (d : D) (idxs : list Z) :
+  zlength ls + 1 < 2 ^ 63 -> Forall (fun i => 0 <= i < zlength ls) idxs ->
+  exists md, batch_update_from_append D H (map (path D H dflt ls) idxs) idxs (zlength ls) d (peaks_spec D H dflt ls) =
+             Some (map (path D H dflt (ls ++ [d])) idxs, md) /\
+             md_spec D H dflt ls (ls ++ [d]) 0 idxs md.
+Proof.
+  intros Hn Hall. destruct (tones_exists (zlength ls) (zlength_nonneg ls)) as (q & Ht & _).
+  exact (bufa_section_spec D H dflt ls d _ q Ht Hn idxs Hall).
+Qed.
+
+Theorem append_exact_holds (D : Type) (H : D -> D -> D) (dflt : D) : append_exact D H dflt.
+Proof.
+  intros ls d idxs Hn Hall. destruct (batch_update_from_append_spec D H dflt ls d idxs Hn Hall) as (md & E & _).
+  exists md. exact E.
+Qed.
+
+(* the history invariant, unconditionally: every tracked proof stays THE authentication path of its leaf
+   through any valid history of appends, mutations and batch mutations *)
+Theorem history_inv_full (D : Type) (H : D -> D -> D) (deq : D -> D -> bool) (dflt : D) :
+  (forall x y, deq x y = true <-> x = y) ->
+  forall (ops : list (top D)) (st : tstate D) (ls : list D),
+    tinv D H dflt st ls -> zlength ls < 2 ^ 63 -> mops_valid D H dflt ls (map (terase D) ops) ->
+    exists st', trun D H deq st ops = Some st' /\
+                tinv D H dflt st' (run D ls (map (erase D) (map (terase D) ops))).
+Proof. intros Hdeq. exact (history_inv D H deq dflt Hdeq (append_exact_holds D H dflt)). Qed.
